@@ -216,6 +216,54 @@ func TestVerifC19Concurrent(t *testing.T) {
 			}
 		}
 	}
+	// One long-lived handler, requests one after another from peers whose
+	// addresses are textual prefixes of each other (10.0.0.1, 10.0.0.12, ...),
+	// of both families, and from the same peer on another port: whatever the
+	// handler remembers between requests, the backend must be sent for each
+	// request what a fresh handler sends for it.
+	peers := []string{"10.0.0.1:40001", "10.0.0.12:40002", "10.0.0.123:40003", "10.0.0.1:50001", "[2001:db8::1]:40004", "[2001:db8::12]:40005", "1.0.0.1:40006", "110.0.0.1:40007"}
+	targets := []c19cReq{{Method: "GET", Target: "/linkip/devA/encA"}, {Method: "POST", Target: "/ddns/devB/encB/b.example"}}
+	hdepth := vrt.Pick(r, 3, 4)
+	r.Bound("peer_history_depth", hdepth)
+	r.Bound("peer_history_peers", len(peers))
+	soloPeer := map[string]string{}
+	for _, pa := range peers {
+		for _, tq := range targets {
+			h, be := c19cNew()
+			q := tq
+			q.Remote = pa
+			if st, _ := c19cServe(h, q); st != http.StatusOK || len(be.got) != 1 {
+				vrt.Fatalf("c19: %+v is not forwarded alone (status %d)", q, st)
+			}
+			soloPeer[pa+" "+tq.Target] = be.got[0]
+		}
+	}
+	vrt.Part(r, "peer-history", func(emit func(c19hCase)) {
+		vrt.Sequences(len(peers)*len(targets), 2, hdepth, func(seq []int) { emit(c19hCase{Events: append([]int{}, seq...)}) })
+	}, func(c c19hCase) []vrt.Finding {
+		h, be := c19cNew()
+		for i, e := range c.Events {
+			q := targets[e%len(targets)]
+			q.Remote = peers[e/len(targets)]
+			st, _ := c19cServe(h, q)
+			r.Trans(1)
+			if st != http.StatusOK || len(be.got) != i+1 {
+				return vrt.F("peer-history/request-not-forwarded", "request %d (%+v) of the history %v: status %d, %d requests at the backend", i, q, c.Events, st, len(be.got))
+			}
+			if want := soloPeer[q.Remote+" "+q.Target]; be.got[i] != want {
+				return vrt.F("peer-history/backend-request-depends-on-earlier-requests", "request %d (%+v) after %d earlier requests on the same handler: the backend was sent\n   %s\nbut a fresh handler sends\n   %s", i, q, i, be.got[i], want)
+			}
+		}
+		r.Class(fmt.Sprintf("peer-history depth %d", len(c.Events)))
+		r.State(fmt.Sprint("ph", c.Events))
+
+		return nil
+	})
 	r.Finish()
 	os.Exit(0)
+}
+
+type c19hCase struct {
+	// Events are indexes into peers x targets.
+	Events []int `json:"events"`
 }
